@@ -1,6 +1,6 @@
 SPECIFICATION GenSpecC
 CONSTANTS Names <- Names2 Depth = 3 Vals <- ValsQ Sep = 46 Design = "list" Base <- BaseAB MaxSlots = 4
-  Ends <- EndsQ Strs <- NoStrs Seps <- NoStrs Asgs <- NoStrs Elems <- NoStrs
+  Ends <- Ends0 Strs <- NoStrs Seps <- NoStrs Asgs <- NoStrs Elems <- NoStrs
 CONSTRAINT Bound
 VIEW ViewC
 ACTION_CONSTRAINT Emit
